@@ -56,7 +56,7 @@ def make_sim(cfg, setup, hyper=False, close=False, ecc=False):
     sim = rebound.Simulation()
     integ = cfg.split("-")[0]
     if integ == "whfast512":
-        sim.G = 0.0002959122082326367
+        sim.G = 1.0                      # WHFast512 requires G = 1
         sim.add(m=1.0)
         for i in range(8):
             sim.add(m=1e-6, a=1.0 + 0.3 * i, e=0.01, f=0.7 * i)
@@ -244,7 +244,7 @@ def run_scenario(cfg, setup, runs, digests, opts):
     events = []
     init = None
     notes = []
-    safe = "unsafe" not in cfg and "corr" not in cfg
+    safe = "unsafe" not in cfg and "corr" not in cfg and cfg != "whfast512"      # WHFast512 has no safe mode
     for ri, calls in enumerate(runs):
         sim = make_sim(cfg, setup, hyper=opts.get("hyper", False), close=opts.get("close", False), ecc=opts.get("ecc", False))
         sim.t = opts.get("t0", 0.0)
@@ -315,7 +315,8 @@ def scenarios(rng, cfg, tier):
         calls = [(t * U, 1, None, rep % 2 == 0, None) for t in ts]
         calls.insert(2, (ts[1] * U, 1, None, False, None))           # target == current time
         calls.append((ts[-1] * U + U / 4, 1, None, False, None))     # much shorter than dt
-        yield [calls], {"dt": dt}
+        if cfg != "whfast512":                                       # (exact finishing and negative steps are refused by WHFast512)
+            yield [calls], {"dt": dt}
         # S2 split invariance without exact finishing: three partitions of the same interval
         a, b, c = sorted(rng.sample(range(2, 50), 3))
         yield [[(a * U, 0, None, False, None), (b * U, 0, None, True, None), (c * U, 0, None, False, None)],
@@ -323,8 +324,9 @@ def scenarios(rng, cfg, tier):
                [(b * U, 0, None, False, None), (c * U, 0, None, False, None)],
                [(a * U, 0, None, False, None), (a * U, 0, None, False, None), (c * U, 0, None, False, None)]], {"dt": dt}
         # S3 backward, mixed directions, dt larger than the interval, negative start
-        yield [[(-5 * U, 1, None, False, None), (-5 * U, 0, None, False, None), (-9 * U, 0, None, True, None),
-                (3 * U, 1, None, False, None), (3 * U + U / 8, 0, None, False, None), (-1 * U, 1, None, False, 16 * U)]], {"dt": dt, "t0": 2 * U}
+        if cfg != "whfast512":
+            yield [[(-5 * U, 1, None, False, None), (-5 * U, 0, None, False, None), (-9 * U, 0, None, True, None),
+                    (3 * U, 1, None, False, None), (3 * U + U / 8, 0, None, False, None), (-1 * U, 1, None, False, 16 * U)]], {"dt": dt, "t0": 2 * U}
         # S4 exit conditions at a chosen boundary (injected by the harness heartbeat)
         b = rng.choice([0, 1, 2, 3])
         yield [[(40 * U, rep % 2, ("user", b), True, None), (50 * U, 0, None, False, None)]], {"dt": dt}
@@ -365,7 +367,8 @@ def trace_mode(outdir, seed, tier):
         s.add(m=1)
         s.add(m=1e-6, a=1)
         s.integrator = "whfast512"
-        s.G = 0.0002959122082326367
+        s.G = 1.0
+        s.exact_finish_time = 0
         s.dt = 1.0
         s.step()
         avx = True
@@ -377,6 +380,12 @@ def trace_mode(outdir, seed, tier):
     for cfg, setup in configs(avx):
         meta["configs"].append(cfg)
         for runs, opts in scenarios(rng, cfg, tier):
+            if cfg == "whfast512":
+                # documented restrictions of WHFast512: exact_finish_time = 0 and positive steps only
+                t0 = opts.get("t0", 0.0)
+                if any(c[0] < p for run in runs for p, c in zip([t0] + [x[0] for x in run[:-1]], run)) or any(c[4] is not None for run in runs for c in run):
+                    continue
+                runs = [[(c[0], 0, c[2], c[3], c[4]) for c in run] for run in runs]
             tr = run_scenario(cfg, setup, runs, digests, opts)
             for nnote in tr["notes"]:
                 meta["notes"].append({"cfg": cfg, "note": nnote, "runs": repr(runs)[:400]})
